@@ -58,6 +58,10 @@ func (t *EventTimer) Reset(timeout time.Duration) {
 		return
 	}
 
+	if verifTimerReset(t, timeout) {
+		return
+	}
+
 	t.timer.Reset(timeout)
 }
 
